@@ -217,8 +217,5 @@ theorem case_spec_full_is_false :
   rw [cexA_fails] at this
   exact Bool.noConfusion this
 
-/-- kept only because `harness/c08.py` (`THEOREMS`) still audits this name; to be dropped when the
-    harness lists the theorems above -/
-theorem placeholder : True := trivial
 
 end C08
